@@ -197,6 +197,10 @@ func runC02(c *Ctx) {
 	c13Encode(c, "C02.R4", "C02.R4")
 	c13Decode(c, "C02.R4")
 	c02R5(c)
+	gsLoopsComplete(c, g, "C02.R6")
+	c02ApplyAdvances(c, g, "C02.R7")
+	c02ObserverCompaction(c, g, "C02.R8")
+	c02InsertOnMiss(c, g, "C02.R9")
 	// the owner side of compaction and deletion markers (rules of C17)
 	c17All(c, g)
 }
@@ -615,7 +619,8 @@ func c02R3(c *Ctx, g *gossipAnchors) {
 				c.fail("C02.R3", fnName(f)+"/scan-complete", ap.Pos(), "entries are not collected in a loop over the node's entries")
 				continue
 			}
-			inLoop := func(b *ssa.BasicBlock) bool { return hdr.Dominates(b) && reachesBlock(b, hdr) }
+			body := naturalLoop(hdr)
+			inLoop := func(b *ssa.BasicBlock) bool { return body[b] }
 			bad := ""
 			for _, b := range f.Blocks {
 				if !inLoop(b) {
@@ -1000,6 +1005,8 @@ func runC11(c *Ctx) {
 	c.floor("C11.R5", 1)
 	pairingRule(c, g, "C11.R5", map[string]bool{"nodes-delete": true})
 	c11R6(c, g)
+	c11Transitions(c, g)
+	gsLoopsComplete(c, g, "C11.R8")
 	// routing follows membership
 	c04StatusRules(c, "C11.R6")
 	c04KeyRules(c)
@@ -1191,6 +1198,32 @@ func c11R6(c *Ctx, g *gossipAnchors) {
 	} else {
 		c.fail("C11.anchor", "clusterState.LiveNodes", token.NoPos, "not found")
 	}
+	// UnreachableNodes (the probe list through which a silent node can be heard from again): exactly the remote nodes marked unreachable
+	if fn := p.Func(gsPkg, "clusterState.UnreachableNodes"); fn != nil {
+		c.analysed(fnName(fn))
+		fs := computeFacts(fn)
+		n := 0
+		allInstrs(fn, func(i ssa.Instruction) {
+			cl, ok := i.(*ssa.Call)
+			if !ok {
+				return
+			}
+			if b, ok := cl.Call.Value.(*ssa.Builtin); !ok || b.Name() != "append" {
+				return
+			}
+			n++
+			facts := fs.At(cl.Block())
+			unreach := anyFact(facts, func(f Fact) bool { _, ok := loadedField(f.V, g.unreachF); return ok && f.T })
+			notLocal := anyFact(facts, func(f Fact) bool {
+				return cmpFact(f, token.NEQ, func(a ssa.Value) bool { _, ok := loadedField(a, g.idF); return ok }, func(a ssa.Value) bool { _, ok := loadedField(a, g.localIDF); return ok })
+			})
+			c.check(unreach && notLocal, "C11.R6", fnName(fn)+"/append", cl.Pos(), "probe list = remote nodes marked unreachable",
+				"UnreachableNodes does not return exactly the remote nodes marked unreachable: they are never probed again (or the local node is); facts "+factStrings(facts))
+		})
+		if n == 0 {
+			c.fail("C11.R6", fnName(fn)+"/append", fn.Pos(), "no append found")
+		}
+	}
 	// Gossip.Leave notifies only nodes that are neither left nor unreachable
 	if fn := p.Func(gsPkg, "Gossip.Leave"); fn != nil {
 		c.analysed(fnName(fn))
@@ -1203,4 +1236,319 @@ func c11R6(c *Ctx, g *gossipAnchors) {
 			c.check(f1 && f2, "C11.R6", fnName(fn)+"/leave-target", call.Pos(), "leave is sent only to nodes that are neither left nor unreachable", "leave can be sent to a left or unreachable node; facts "+factStrings(facts))
 		}
 	}
+}
+
+// ---------------------------------------------------------------- rules added after the generic mutation sweep
+
+// gsLoopsComplete: no loop of a clusterState method is left early: the only
+// way out of a loop is exhausting its range, or returning from the function.
+// (A `break` in a sweep over the nodes table or over received entries silently
+// skips the rest: map order is arbitrary and deltas are sorted ascending.)
+func gsLoopsComplete(c *Ctx, g *gossipAnchors, rule string) {
+	loopsComplete(c, rule, g.stateFuncs(), 15)
+}
+
+func loopsComplete(c *Ctx, rule string, fns []*ssa.Function, floor int) {
+	p := c.P
+	n := 0
+	for _, fn := range fns {
+		for _, hdr := range fn.Blocks {
+			isHeader := false
+			for _, pb := range hdr.Preds {
+				if hdr.Dominates(pb) {
+					isHeader = true
+				}
+			}
+			if !isHeader {
+				continue
+			}
+			n++
+			body := naturalLoop(hdr)
+			inLoop := func(b *ssa.BasicBlock) bool { return body[b] }
+			bad := ""
+			for _, b := range fn.Blocks {
+				if !inLoop(b) || b == hdr {
+					continue
+				}
+				for _, sb := range b.Succs {
+					if inLoop(sb) {
+						continue
+					}
+					// leaving the loop from inside its body: allowed only if that path returns without re-joining
+					if !onlyReturns(sb, hdr) {
+						bad = "the loop can be left early at " + p.pos(b.Instrs[len(b.Instrs)-1].Pos())
+					}
+				}
+			}
+			c.check(bad == "", rule, fmt.Sprintf("%s/loop@block%d-complete", fnName(fn), hdr.Index), hdr.Instrs[0].Pos(), "the loop is left only when its range is exhausted (or by returning)",
+				bad+": the remaining nodes/entries are silently skipped")
+		}
+	}
+	c.floor(rule, floor)
+	_ = n
+}
+
+// onlyReturns: every path from b ends in a return without passing code that
+// follows the loop normally (i.e. b is an early-return arm).
+func onlyReturns(b *ssa.BasicBlock, hdr *ssa.BasicBlock) bool {
+	// the normal exit of the loop is the header's out-of-loop successor; an early-return arm must not reach it
+	var exit *ssa.BasicBlock
+	body := naturalLoop(hdr)
+	for _, s := range hdr.Succs {
+		if !body[s] {
+			exit = s
+		}
+	}
+	if exit == nil {
+		return false
+	}
+	if b == exit {
+		return false
+	}
+	seen := map[*ssa.BasicBlock]bool{}
+	var rec func(x *ssa.BasicBlock) bool
+	rec = func(x *ssa.BasicBlock) bool {
+		if x == exit {
+			return false
+		}
+		if seen[x] {
+			return true
+		}
+		seen[x] = true
+		for _, s := range x.Succs {
+			if !rec(s) {
+				return false
+			}
+		}
+		return true
+	}
+	return rec(b)
+}
+
+// c02ApplyAdvances: every received entry that is stored advances the node's
+// applied version to that entry's version before the next entry is looked at.
+func c02ApplyAdvances(c *Ctx, g *gossipAnchors, rule string) {
+	p := c.P
+	all := g.allWrites()
+	n := 0
+	for _, fn := range sortedFuncs(all) {
+		fs := computeFacts(fn)
+		for _, w := range all[fn] {
+			if w.kind != "entries-update" {
+				continue
+			}
+			if cls, _ := g.rootClass(w.root, w.instr, fs); cls != "remote" {
+				continue
+			}
+			n++
+			ev := entryVarOf(w.val)
+			isAdvance := func(i ssa.Instruction) bool {
+				st, ok := i.(*ssa.Store)
+				if !ok {
+					return false
+				}
+				r, fv, ok := g.stateRootOfAddr(st.Addr)
+				if !ok || fv != g.versionF || strip(r) != strip(w.root) {
+					return false
+				}
+				b, ok := loadedField(st.Val, g.eVersion)
+				return ok && strip(b) == strip(ev)
+			}
+			// in the same block, before any branch
+			found := false
+			for _, in := range w.instr.Block().Instrs {
+				if isAdvance(in) {
+					found = true
+				}
+			}
+			if !found {
+				if end := everyPathFrom(w.instr, isAdvance, nil, true); end == nil {
+					found = true
+				}
+			}
+			c.check(found, rule, fnName(fn)+"/stored-entry-advances-version", w.instr.Pos(), "storing a received entry is followed by Version = e.Version",
+				"a received entry is stored without advancing the node's applied version to it: the digest keeps reporting an old version (everything is re-requested and re-applied, and relayed state looks older than it is) at "+p.pos(w.instr.Pos()))
+		}
+	}
+	if n == 0 {
+		c.fail(rule, "remote-entry-stores", token.NoPos, "no store of a received entry found")
+	}
+}
+
+// c11Transitions: liveness flags change only on a real transition.
+func c11Transitions(c *Ctx, g *gossipAnchors) {
+	all := g.allWrites()
+	c.floor("C11.R7", 2)
+	for _, fn := range sortedFuncs(all) {
+		fs := computeFacts(fn)
+		for _, w := range all[fn] {
+			if w.kind != "field:Unreachable" {
+				continue
+			}
+			if cls, _ := g.rootClass(w.root, w.instr, fs); cls != "remote" {
+				continue
+			}
+			val, ok := constBool(w.val)
+			if !ok {
+				continue
+			}
+			facts := fs.At(w.instr.Block())
+			prev := anyFact(facts, func(f Fact) bool {
+				b, ok := loadedField(f.V, g.unreachF)
+				return ok && f.T == !val && strip(metaRoot(b, g)) == strip(w.root)
+			})
+			c.check(prev, "C11.R7", fmt.Sprintf("%s/Unreachable=%v-on-transition", fnName(fn), val), w.instr.Pos(), "the flag is written only when it changes",
+				fmt.Sprintf("Unreachable=%v is not written exactly on the transition from %v (guard missing or inverted): either the node is never marked, or each sweep re-arms its expiry and re-notifies so it is never forgotten; facts %s", val, !val, factStrings(facts)))
+		}
+	}
+}
+
+// c02InsertOnMiss (C02.R9): a node object is put into the table only where the
+// table is known not to hold that id (or at construction): inserting over a
+// known node discards everything learned about it.
+func c02InsertOnMiss(c *Ctx, g *gossipAnchors, rule string) {
+	all := g.allWrites()
+	n := 0
+	for _, fn := range sortedFuncs(all) {
+		if strings.HasPrefix(fn.Name(), "new") {
+			continue
+		}
+		fs := computeFacts(fn)
+		for _, w := range all[fn] {
+			if w.kind != "nodes-insert" {
+				continue
+			}
+			n++
+			facts := fs.At(w.instr.Block())
+			miss := anyFact(facts, func(f Fact) bool {
+				ex, ok := f.V.(*ssa.Extract)
+				if !ok || ex.Index != 1 || f.T {
+					return false
+				}
+				lk, ok := ex.Tuple.(*ssa.Lookup)
+				if !ok {
+					return false
+				}
+				_, isNodes := loadedField(lk.X, g.nodesF)
+				return isNodes && sameValue(lk.Index, w.key)
+			})
+			c.check(miss, rule, fnName(fn)+"/insert-only-on-miss", w.instr.Pos(), "a node is inserted only under `_, ok := nodes[id]; !ok`",
+				"a node object is stored into the table without knowing the id is absent (guard missing or inverted): a known node's state is replaced by an empty one (and an unknown one is dereferenced as nil); facts "+factStrings(facts))
+		}
+	}
+	if n == 0 {
+		c.fail(rule, "nodes-insert", token.NoPos, "no insertion of a discovered node found")
+	}
+}
+
+// c02ObserverCompaction (C02.R8): on receiving the owner's compaction marker an
+// observer drops exactly the entries at or below the compaction version.
+func c02ObserverCompaction(c *Ctx, g *gossipAnchors, rule string) {
+	p := c.P
+	all := g.allWrites()
+	n := 0
+	for _, fn := range sortedFuncs(all) {
+		fs := computeFacts(fn)
+		for _, w := range all[fn] {
+			if w.kind != "entries-delete" {
+				continue
+			}
+			if cls, _ := g.rootClass(w.root, w.instr, fs); cls != "remote" {
+				continue
+			}
+			n++
+			facts := fs.At(w.instr.Block())
+			// key is the Key of the ranged element x of the same Entries map
+			xb, ok := loadedField(w.key, g.eKey)
+			bad := ""
+			if !ok {
+				bad = "the key deleted is not the key of the entry being examined"
+			}
+			var cv ssa.Value
+			leq := anyFact(facts, func(f Fact) bool {
+				return cmpFact(f, token.LEQ, func(v ssa.Value) bool {
+					b, ok := loadedField(v, g.eVersion)
+					return ok && xb != nil && strip(b) == strip(xb)
+				}, func(v ssa.Value) bool {
+					ex, ok := strip(v).(*ssa.Extract)
+					if !ok || ex.Index != 0 {
+						return false
+					}
+					cl, ok := ex.Tuple.(*ssa.Call)
+					if ok && commonName(&cl.Call) == "strconv.ParseUint" {
+						cv = ex
+						return true
+					}
+					return false
+				})
+			})
+			if bad == "" && !leq {
+				bad = "entries are not dropped exactly when entry.Version <= the received compaction version"
+			}
+			if bad == "" {
+				parse := cv.(*ssa.Extract).Tuple.(*ssa.Call)
+				// the version parsed is the Value of a received entry that is internal and carries the compact key
+				eb, ok := loadedField(parse.Call.Args[0], g.eValue)
+				if !ok {
+					bad = "the compaction version is not parsed from the received entry's value"
+				} else {
+					isE := func(v ssa.Value) bool { b, ok := loadedField(v, g.eKey); return ok && strip(b) == strip(eb) }
+					isCompact := func(v ssa.Value) bool { s, ok := constString(v); return ok && s == g.compactKey }
+					keyOK := anyFact(facts, func(f Fact) bool { return cmpFact(f, token.EQL, isE, isCompact) })
+					internal := anyFact(facts, func(f Fact) bool {
+						b, ok := loadedField(f.V, g.eInternal)
+						return ok && f.T && strip(b) == strip(eb)
+					})
+					parsed := anyFact(facts, func(f Fact) bool {
+						return cmpFact(f, token.EQL, func(v ssa.Value) bool {
+							ex, ok := strip(v).(*ssa.Extract)
+							return ok && ex.Index == 1 && ex.Tuple == ssa.Value(parse)
+						}, isNilConst)
+					})
+					switch {
+					case !keyOK || !internal:
+						bad = "not under `e.Internal && e.Key == compactKey` of the received entry"
+					case !parsed:
+						bad = "not under a successful parse of the compaction version"
+					}
+				}
+			}
+			// no further condition on the examined entry
+			if bad == "" {
+				for _, f := range facts {
+					if b, ok := loadedField(f.V, g.eDeleted); ok && strip(b) == strip(xb) {
+						bad = "dropping additionally depends on the entry's Deleted flag"
+					}
+				}
+			}
+			c.check(bad == "", rule, fnName(fn)+"/drops-compacted-entries", w.instr.Pos(), "delete(R.Entries, x.Key) for every x with x.Version <= parsed compaction version, under the received internal compact key",
+				"observer-side compaction is wrong at "+p.pos(w.instr.Pos())+": "+bad+"; facts "+factStrings(facts))
+		}
+	}
+	if n == 0 {
+		c.fail(rule, "observer-compaction", token.NoPos, "no removal of compacted entries from a remote node's state found: keys whose deletion marker was compacted away are reported forever")
+	}
+}
+
+// naturalLoop: the blocks of the natural loop(s) headed by hdr.
+func naturalLoop(hdr *ssa.BasicBlock) map[*ssa.BasicBlock]bool {
+	body := map[*ssa.BasicBlock]bool{hdr: true}
+	var work []*ssa.BasicBlock
+	for _, pb := range hdr.Preds {
+		if hdr.Dominates(pb) && !body[pb] {
+			body[pb] = true
+			work = append(work, pb)
+		}
+	}
+	for len(work) > 0 {
+		b := work[len(work)-1]
+		work = work[:len(work)-1]
+		for _, pb := range b.Preds {
+			if !body[pb] {
+				body[pb] = true
+				work = append(work, pb)
+			}
+		}
+	}
+	return body
 }
